@@ -80,11 +80,11 @@ def fbCodec (mode : Nat) : Codec FB where
   num := fbNum mode
   parse s :=
     if s.startsWith "x" then
-      (parseHex (s.drop 1).toString).map fun b => ⟨Float.ofBits (UInt64.ofNat b), 0.0⟩
+      (parseHex (s.drop 1).toString).map fun b => FB.lit (Float.ofBits (UInt64.ofNat b))
     else (parseRat s).map fun q =>
       let v := floatOfRat q
-      ⟨v, if q.den == 1 && q.num.natAbs < 2 ^ 53 then 0.0 else uRound * v.abs⟩
-  show_ x := s!"f:{toHex16 x.v.toBits.toNat}:{toHex16 x.err.toBits.toNat}"
+      { FB.lit v with err := if q.den == 1 && q.num.natAbs < 2 ^ 53 then 0.0 else uRound * v.abs }
+  show_ x := s!"f:{toHex16 x.v.toBits.toNat}:{toHex16 x.err.toBits.toNat}:{toHex16 x.mx.toBits.toNat}:{toHex16 x.mn.toBits.toNat}"
 
 /-! ### token reader -/
 
